@@ -93,4 +93,10 @@ CHECKS = {
         design_ref="DESIGN.md §4 C06",
         note="Characters XML 1.0 cannot represent are outside this alphabet (see C01 edge probes). The literal label '-' is indistinguishable from the itext placeholder by design.",
     ),
+    "C13": dict(
+        technique="property-based metamorphic testing: a random composition of catalogued spelling/layout transformations must leave the canonical XForm and the parsed warning multiset unchanged up to the predicted row shift; failing compositions are re-run one transformation at a time to attribute the cause",
+        text="Random forms x random subsets of 13 transformation kinds (header case/spacing, column aliases, ':' delimiter, type aliases, truth values, quotes, spaces, column and sheet permutation, blank rows, extra sheets, unknown columns, sheet-name case via xlsx). Both conversions must have the same outcome; generated helper names and [row : n] move by exactly the inserted blank rows.",
+        design_ref="DESIGN.md §4 C13",
+        note="Alias catalogue restated in vf/props/c13.py from the statement and the XLSForm docs. Translations and item children are compared order-insensitively under column permutation. One genuine defect fixed in /repo.",
+    ),
 }
